@@ -1161,3 +1161,158 @@ Proof.
     { intros c d C. induction C; [auto | lia]. }
     intros d C. apply T in C. lia.
 Qed.
+
+(* ------------------------------------------------------------------------------------------ *)
+(* Part G: reference cycles.  A conversion that succeeds has met every referenced rule before its
+   referrers, so the reference graph is acyclic; a cyclic rule set fails in EVERY order. *)
+Lemma clos_trans_first {A} (R : A -> A -> Prop) x y : clos_trans A R x y -> exists z, R x z.
+Proof. induction 1 as [x y H | x y z _ IH1 _ _]; eauto. Qed.
+Lemma clos_trans_last {A} (R : A -> A -> Prop) x y : clos_trans A R x y -> exists z, R z y.
+Proof. induction 1 as [x y H | x y z _ _ _ IH2]; eauto. Qed.
+
+Section Cycles.
+  Variable Q : Type.
+  Variable rplain : doc -> list Q.
+  Variable rcorr : doc -> list (doc * list Q) -> list Q.
+
+  Lemma collect_Some ds res : forall js subs,
+    collect Q ds res js = Some subs -> forall j, In j js -> get Q res j <> None.
+  Proof.
+    induction js as [|k t IH]; simpl; intros subs H j Hj; [contradiction|].
+    destruct (nth_error ds k) as [d|]; [|discriminate].
+    destruct (get Q res k) as [q|] eqn:Eg; [|discriminate].
+    destruct (collect Q ds res t) as [l|] eqn:Ec; [|discriminate].
+    destruct Hj as [<-|Hj]; [congruence | eapply IH; eauto].
+  Qed.
+
+  Lemma run_Some_closed ds rr ac : resolve_all ds = Some rr ->
+    forall ord pre res em r,
+      (forall j, get Q res j <> None -> In j pre) ->
+      run Q rplain rcorr ac ds rr ord res em = Some r ->
+      forall l1 i l2, ord = l1 ++ i :: l2 -> incl (children rr i) (pre ++ l1).
+  Proof.
+    intros Hr. induction ord as [|k t IH]; intros pre res em r Hpre H l1 i l2 E.
+    - destruct l1; discriminate.
+    - simpl in H. destruct (conv_rule Q rplain rcorr ds rr res k) as [q|] eqn:Ec; [|discriminate].
+      destruct l1 as [|k' l1']; simpl in E; inversion E; subst.
+      + rewrite app_nil_r. unfold conv_rule in Ec.
+        destruct (nth_error ds i) as [d|] eqn:Ed; [|discriminate].
+        destruct (is_corr d) eqn:Ecorr.
+        * destruct (collect Q ds res (children rr i)) as [subs|] eqn:Ecol; [|discriminate].
+          intros j Hj. apply Hpre. eapply collect_Some; eauto.
+        * rewrite (plain_no_children _ _ _ _ Hr Ed Ecorr). intros j [].
+      + replace (pre ++ k' :: l1') with ((pre ++ [k']) ++ l1') by (rewrite <- app_assoc; reflexivity).
+        eapply IH; [|exact H|reflexivity].
+        intros j. rewrite get_cons. destruct (Nat.eqb k' j) eqn:Ek.
+        * apply Nat.eqb_eq in Ek. subst. intros _. apply in_or_app. right. now left.
+        * intros Hg. apply in_or_app. left. now apply Hpre.
+  Qed.
+
+  Lemma topo_ok_acyclic rr ord :
+    topo_ok rr ord -> NoDup ord -> (forall c r, refers rr c r -> In c ord) -> acyclic rr.
+  Proof.
+    intros Ht Hnd Hin.
+    (* prefixes of the order are closed under reachability *)
+    assert (Cl : forall x y, clos_trans nat (refers rr) x y ->
+                 forall l1 l2, ord = l1 ++ l2 -> In x l1 -> In y l1).
+    { induction 1 as [x y Hxy | x y z _ IH1 _ IH2]; intros l1 l2 E Hx.
+      - apply in_split in Hx. destruct Hx as [a [b ->]].
+        rewrite <- app_assoc in E. simpl in E.
+        apply in_or_app. left. eapply (Ht a x (b ++ l2)); eauto.
+      - eapply IH2; eauto. }
+    intros x C.
+    assert (Hx : In x ord).
+    { destruct (clos_trans_first _ _ _ C) as [z Hz]. eapply Hin; eauto. }
+    apply in_split in Hx. destruct Hx as [a [b E]].
+    assert (Hxa : In x a).
+    { apply clos_trans_t1n in C. inversion C as [y H | y z H C']; subst.
+      - eapply (Ht a x b); eauto.
+      - apply clos_t1n_trans in C'. eapply (Cl _ _ C' a (x :: b)); eauto.
+        eapply (Ht a x b); eauto. }
+    rewrite E in Hnd. apply NoDup_remove_2 in Hnd. apply Hnd. apply in_or_app. now left.
+  Qed.
+
+  Theorem pipeline_Ok_acyclic ds c rr :
+    pipeline Q rplain rcorr ds = Ok c -> resolve_all ds = Some rr -> acyclic rr.
+  Proof.
+    intros H Hr. destruct (pipeline_Ok _ _ _ _ _ H) as [rr' [Hr' [_ [_ Hrun]]]].
+    assert (rr' = rr) by congruence. subst rr'.
+    destruct (order_conv_perm _ _ _ _ _ H) as [_ P2].
+    apply (topo_ok_acyclic rr (c_order_conv c)).
+    - intros l1 i l2 E. eapply (run_Some_closed ds rr false Hr _ [] [] []); eauto.
+      intros j Hj. simpl in Hj. congruence.
+    - eapply Permutation_NoDup; [symmetry; exact P2 | apply seq_NoDup].
+    - intros x r Hxr. eapply Permutation_in; [symmetry; exact P2|]. apply in_seq.
+      destruct (resolved_bound _ _ _ _ Hr Hxr). lia.
+  Qed.
+
+  Lemma pipeline_cases ds rr : resolve_all ds = Some rr ->
+    (exists c, pipeline Q rplain rcorr ds = Ok c) \/ pipeline Q rplain rcorr ds = SigmaErr E_Conversion.
+  Proof.
+    intros Hr. unfold pipeline, load. rewrite Hr.
+    destruct (run Q rplain rcorr false ds rr _ [] []) as [[res em]|]; eauto.
+  Qed.
+
+  (* document-level cycle from a position-level one needs no premise (acyclic_docs_index); the converse
+     needs unique keys *)
+  Lemma refers_doc_index ds rr : resolve_all ds = Some rr -> unique_keys ds ->
+    forall c d, clos_trans doc (refers_doc ds) c d ->
+    forall i, nth_error ds i = Some c ->
+    exists j, nth_error ds j = Some d /\ clos_trans nat (refers rr) i j.
+  Proof.
+    intros Hr Hu. induction 1 as [c d [Hc [Hd [r [Hrin Hm]]]] | c d e _ IH1 _ IH2]; intros i Hi.
+    - pose proof (lookupD_unique _ _ _ Hu Hd Hm) as HL. unfold lookupD in HL.
+      destruct (lookup ds r) as [j|] eqn:El; [|discriminate].
+      exists j. split; [assumption|]. apply t_step. unfold refers.
+      pose proof (resolve_refs_Some _ _ _ (resolved_row ds rr Hr _ _ Hi)) as HF.
+      destruct (Forall2_In_l _ _ _ _ HF Hrin) as [j' [Hj' Hl']].
+      assert (j' = j) by congruence. subst. exact Hj'.
+    - destruct (IH1 _ Hi) as [j [Hj C1]]. destruct (IH2 _ Hj) as [k [Hk C2]].
+      exists k. split; [assumption | eapply t_trans; eauto].
+  Qed.
+
+  Lemma acyclic_index_docs ds rr : resolve_all ds = Some rr -> unique_keys ds -> acyclic rr -> acyclic_docs ds.
+  Proof.
+    intros Hr Hu Hac c C.
+    (* the last step of the cycle tells that c carries a key *)
+    assert (Hlast : exists x r, In r (doc_refs x) /\ matches r c = true /\ In c ds).
+    { destruct (clos_trans_last _ _ _ C) as [z [_ [Hd [r [? ?]]]]]. eauto. }
+    destruct Hlast as [x [r [_ [Hm Hc]]]].
+    apply In_nth_error in Hc. destruct Hc as [i Hi].
+    destruct (refers_doc_index ds rr Hr Hu _ _ C _ Hi) as [j [Hj Cj]].
+    assert (j = i) by (eapply unique_position; eauto using unique_keys_keyl). subst.
+    exact (Hac _ Cj).
+  Qed.
+
+  (* THE PROPERTY at full strength on rule sets with unique keys: cycles included *)
+  Theorem order_independent_full p ds :
+    Permutation p ds -> unique_keys ds ->
+    same_outcome p ds (pipeline Q rplain rcorr p) (pipeline Q rplain rcorr ds).
+  Proof.
+    intros P Hu.
+    assert (Hup : unique_keys p) by (eapply unique_keys_perm; eauto).
+    unfold same_outcome.
+    destruct (resolve_all ds) as [rr|] eqn:Er.
+    - destruct (resolve_all p) as [rr'|] eqn:Er'.
+      + assert (T : forall a b ra rb, Permutation a b -> unique_keys a -> unique_keys b ->
+                     resolve_all a = Some ra -> resolve_all b = Some rb ->
+                     (exists c, pipeline Q rplain rcorr a = Ok c) -> exists c, pipeline Q rplain rcorr b = Ok c).
+        { intros a b ra rb Pab Ua Ub Ra Rb [c Hc].
+          apply (pipeline_total Q rplain rcorr b rb Rb).
+          apply (acyclic_docs_index _ _ Rb).
+          apply (acyclic_docs_perm b a); [now symmetry|].
+          apply (acyclic_index_docs a ra Ra Ua).
+          eapply pipeline_Ok_acyclic; eauto. }
+        destruct (pipeline_cases ds rr Er) as [[c Hc]|Hc], (pipeline_cases p rr' Er') as [[c' Hc']|Hc'].
+        * rewrite Hc, Hc'. eapply emitted_order_independent; eauto.
+        * destruct (T ds p rr rr') as [c' Hc'']; eauto; [now symmetry|]. congruence.
+        * destruct (T p ds rr' rr) as [c Hc'']; eauto. congruence.
+        * rewrite Hc, Hc'. reflexivity.
+      + apply resolve_all_None in Er'. apply (has_dangling_perm _ _ P) in Er'.
+        apply resolve_all_None in Er'. congruence.
+    - assert (Hd : has_dangling ds) by now apply resolve_all_None.
+      assert (Hp : has_dangling p) by (eapply has_dangling_perm; [symmetry; exact P | exact Hd]).
+      apply (pipeline_missing_ref Q rplain rcorr) in Hd. apply (pipeline_missing_ref Q rplain rcorr) in Hp.
+      rewrite Hd, Hp. reflexivity.
+  Qed.
+End Cycles.
